@@ -16,7 +16,12 @@ func NormalizeNoop(s string) (string, error) {
 // NormalizeAuto applies address.PRECISFold to valid emails and
 // plain UsernameCaseMapped profile to other strings.
 func NormalizeAuto(s string) (string, error) {
-	if address.Valid(s) {
+	// Anything that has a domain part is handled as an address, not only what
+	// address.Valid takes (it refuses a local part that needs quoting or an
+	// over-long string): the user name profile applied to the whole string
+	// turns a fullwidth at-sign in the domain into the separator and the
+	// address into an address of another domain.
+	if _, _, err := address.Split(s); err == nil || address.Valid(s) {
 		return address.PRECISFold(s)
 	}
 	return precis.UsernameCaseMapped.CompareKey(s)
